@@ -17,9 +17,9 @@ from sa import sem, pyeval
 MM = "textx/metamodel.py"; L = "textx/lang.py"; M = "textx/model.py"
 def r_C25efg(root):
     out = []; inst = 0
-    t = load(root, MM); ni = find(t, "TextXMetaModel._new_import"); fi = sem.info(ni)
+    t = load(root, MM); ni = find_i(root, MM, "TextXMetaModel._new_import"); fi = sem.info(ni)
     # ---- C25.e
-    asg = [n for n in own_nodes(ni) if isinstance(n, ast.Assign) and isinstance(n.targets[0], ast.Name) and n.targets[0].id == "import_name"]
+    asg = [n for n in own_nodes(ni) if isinstance(n, ast.Assign) and isinstance(n.targets[0], ast.Name) and n.targets[0].id == "import_name" and not (isinstance(n.value, ast.Name) and n.value.id == "import_name")]
     if not asg: raise AnalysisError("_new_import: qualification of the import name not found")
     for a in asg:
         inst += 1
